@@ -435,6 +435,10 @@ class Run:
                 except Exception: cov[k + '_note'] = str(cov.pop(k))
         if not isinstance(cov.get('samples'), list) or not cov['samples']:
             cov['samples'] = ['(no cases run)']
+        LEVELS = ('exploration', 'fault_enumeration', 'model_checking', 'proof', 'translation_validation', 'other')
+        if level not in LEVELS:
+            cov['level_detail'] = level
+            level = next((l for l in LEVELS if level.startswith(l)), 'other')
         ev = {
             'property_id': self.prop, 'tier': self.tier, 'seed': self.seed, 'level': level,
             'coverage': cov,
